@@ -13,6 +13,8 @@ import (
 	"fmt"
 	"math/rand"
 	"os"
+	"runtime"
+	"strconv"
 	"strings"
 	"sync"
 	"time"
@@ -96,7 +98,11 @@ func (r *reqObj) TypeID() uint32             { return reqTypeID }
 
 type resObj struct{ tag int }
 
-func (r *resObj) Encode(b *bin.Buffer) error { b.PutID(resTypeID); b.PutInt32(int32(r.tag)); return nil }
+func (r *resObj) Encode(b *bin.Buffer) error {
+	b.PutID(resTypeID)
+	b.PutInt32(int32(r.tag))
+	return nil
+}
 
 type outObj struct {
 	mu   sync.Mutex
@@ -119,17 +125,65 @@ func (o *outObj) Decode(b *bin.Buffer) error {
 
 // ---------------------------------------------------------------- world
 
+// gatedSrc is the connection's message id source with a scheduling point: a call made by a scripted
+// caller allocates its id and then waits until the script lets it return (op "relid").
+type gatedSrc struct {
+	inner *proto.MessageIDGen
+	w     *world
+}
+
+func (g *gatedSrc) New(t proto.MessageType) int64 {
+	id := g.inner.New(t)
+	g.w.mu.Lock()
+	k, known := g.w.gidK[curGID()]
+	var ch chan struct{}
+	if g.w.gateID && known {
+		ch = make(chan struct{})
+		g.w.idParked[k] = ch
+	}
+	g.w.mu.Unlock()
+	if ch != nil {
+		<-ch
+	}
+	return id
+}
+
+func curGID() uint64 {
+	var b [64]byte
+	n := runtime.Stack(b[:], false)
+	f := strings.Fields(string(b[:n]))
+	if len(f) < 2 {
+		return 0
+	}
+	id, _ := strconv.ParseUint(f[1], 10, 64)
+	return id
+}
+
+func (w *world) relID(k int) bool {
+	w.mu.Lock()
+	ch := w.idParked[k]
+	delete(w.idParked, k)
+	w.mu.Unlock()
+	if ch != nil {
+		close(ch)
+	}
+	return ch != nil
+}
+
 type world struct {
-	out   *tr.W
-	sc    *sched.S
-	clk   *neo.Time
-	t0    time.Time
-	p     *pipe
-	conn  *mtproto.Conn
-	key   crypto.AuthKey
-	other crypto.AuthKey
-	srv   crypto.Cipher
-	rng   *rand.Rand
+	gateID   bool
+	gidK     map[uint64]int
+	idParked map[int]chan struct{}
+	out      *tr.W
+	sc       *sched.S
+	clk      *neo.Time
+	t0       time.Time
+	p        *pipe
+	conn     *mtproto.Conn
+	key      crypto.AuthKey
+	other    crypto.AuthKey
+	srv      crypto.Cipher
+	rng      *rand.Rand
 
 	mu        sync.Mutex
 	session   int64
@@ -172,7 +226,7 @@ func (z zeroRand) Read(p []byte) (int, error) { return z.r.Read(p) }
 
 func newWorld(out *tr.W, cs tr.M, seed int64) *world {
 	w := &world{out: out, rng: rand.New(rand.NewSource(seed)), reqMsgID: map[int]int64{}, pingID: map[int]int64{}, pingMsg: map[int]int64{},
-		cancels: map[string]context.CancelFunc{}, runDone: make(chan error, 1)}
+		cancels: map[string]context.CancelFunc{}, runDone: make(chan error, 1), gidK: map[uint64]int{}, idParked: map[int]chan struct{}{}}
 	w.t0 = time.Date(2026, 1, 1, 0, 0, 0, 0, time.UTC)
 	w.clk = neo.NewTime(w.t0)
 	var kb crypto.Key
@@ -188,15 +242,16 @@ func newWorld(out *tr.W, cs tr.M, seed int64) *world {
 	opt := mtproto.Options{
 		DC: 2, Random: zeroRand{rand.New(rand.NewSource(seed + 1))}, Handler: handler{w},
 		Clock: w.clk, Key: w.key, Salt: int64(tr.Int(cs["salt0"])),
-		PingInterval: time.Duration(intOr(cs["pingInterval"], 60000)) * time.Millisecond,
-		PingTimeout:  time.Duration(intOr(cs["pingTimeout"], 15000)) * time.Millisecond,
-		RetryInterval: time.Duration(intOr(cs["retryInterval"], 5000)) * time.Millisecond,
-		MaxRetries:    intOr(cs["maxRetries"], 5),
-		AckInterval:   time.Duration(intOr(cs["ackInterval"], 15000)) * time.Millisecond,
-		AckBatchSize:  intOr(cs["ackBatch"], 20),
+		PingInterval:      time.Duration(intOr(cs["pingInterval"], 60000)) * time.Millisecond,
+		PingTimeout:       time.Duration(intOr(cs["pingTimeout"], 15000)) * time.Millisecond,
+		RetryInterval:     time.Duration(intOr(cs["retryInterval"], 5000)) * time.Millisecond,
+		MaxRetries:        intOr(cs["maxRetries"], 5),
+		AckInterval:       time.Duration(intOr(cs["ackInterval"], 15000)) * time.Millisecond,
+		AckBatchSize:      intOr(cs["ackBatch"], 20),
 		SaltFetchInterval: time.Hour, CompressThreshold: -1,
 		RequestTimeout: func(uint32) time.Duration { return 15 * time.Second },
 	}
+	opt.MessageID = &gatedSrc{inner: proto.NewMessageIDGen(w.clk.Now), w: w}
 	w.conn = mtproto.New(func(ctx context.Context) (transport.Conn, error) { return w.p, nil }, opt)
 	ctx, cancel := context.WithCancel(context.Background())
 	w.runCancel = cancel
@@ -264,6 +319,9 @@ func (w *world) clientInvoke(k int) {
 	w.mu.Unlock()
 	w.out.Emit(tr.M{"ev": "invoke", "k": k})
 	go func() {
+		w.mu.Lock()
+		w.gidK[curGID()] = k
+		w.mu.Unlock()
 		var o outObj
 		err := w.conn.Invoke(ctx, &reqObj{k}, &o)
 		o.mu.Lock()
@@ -281,6 +339,9 @@ func (w *world) clientPing(k int) {
 	w.mu.Unlock()
 	w.out.Emit(tr.M{"ev": "ping", "k": k})
 	go func() {
+		w.mu.Lock()
+		w.gidK[curGID()] = k
+		w.mu.Unlock()
 		err := w.conn.Ping(ctx)
 		w.out.Emit(tr.M{"ev": "pingdone", "k": k, "res": errClass(err)})
 	}()
@@ -651,6 +712,12 @@ func (w *world) step(s tr.M) {
 		if c != nil {
 			c()
 		}
+	case "gateid":
+		w.mu.Lock()
+		w.gateID = tr.Bool(s["on"])
+		w.mu.Unlock()
+	case "relid":
+		w.relID(tr.Int(s["k"]))
 	case "tick":
 		w.out.Emit(tr.M{"ev": "tick", "ms": tr.Int(s["ms"])})
 		w.clk.Travel(time.Duration(tr.Int(s["ms"])) * time.Millisecond)
@@ -730,6 +797,20 @@ func main() {
 		w.step(tr.M{"op": "srv", "msg": tr.M{"t": "pong", "of": 8}})
 		for _, s := range tr.List(cs["steps"]) {
 			w.step(tr.Map(s))
+		}
+		// calls still waiting inside the id source return now, oldest first
+		w.mu.Lock()
+		w.gateID = false
+		w.mu.Unlock()
+		for more := true; more; {
+			more = false
+			for k := 0; k < 16; k++ {
+				if w.relID(k) {
+					more = true
+					w.sc.Settle()
+					w.drain()
+				}
+			}
 		}
 		if !w.ended {
 			w.step(tr.M{"op": "end"})
